@@ -5,7 +5,8 @@
    negative number among the lists), the graph is well-formed, and
      - the observed components satisfy [scc_spec] (Spec/Scc.v: they partition the nodes; two nodes share
        a component exactly when each reaches the other; every edge leads to an equal or smaller id);
-     - hascof = 1 exactly when flags <> 0, and then SubnodeComponent has one entry per node and the
+     - hascof = 1 exactly when flags <> 0 (with flags = 0 the SubnodeComponent list is empty), and then
+       SubnodeComponent has one entry per node and the
        entry of every node is the index of the component that contains it;
      - one Out list per component; with SCCEdges (bit 1 of flags) they satisfy [scc_edges_spec] (Out(c) =
        exactly the OTHER components some edge of c enters, once each), without it they are all empty.
@@ -37,15 +38,16 @@ Definition scc_case_ok (rest : list Z) : Prop :=
     g_wf g /\
     scc_spec g compsN /\
     hascof = (if flags =? 0 then 0 else 1) /\
+    (flags = 0 -> cof = []) /\
     (flags <> 0 -> length cof = length g /\
        forall c v, In v (comp_at compsN c) -> nth (N.to_nat v) cof (-1) = Z.of_nat c) /\
     length outsN = length compsN /\
     (if Z.testbit flags 1 then scc_edges_spec g compsN outsN else Forall (fun l => l = []) outsN).
 
-Theorem check_scc_sound : forall l c tag pos diag r,
-  check_scc l = Some (verdict c tag pos diag, r) -> c = 0 \/ c = 1 -> c = 0 /\ r = [] /\ scc_case_ok l.
+Theorem check_scc_sound : forall l c v r,
+  check_scc l = Some (c :: v, r) -> c = 0 \/ c = 1 -> c = 0 /\ r = [] /\ scc_case_ok l.
 Proof.
-  intros l c tag pos diag r H Hc. unfold check_scc in H. pinv H. subst.
+  intros l c vv r H Hc. unfold check_scc in H. pinv H. subst.
   destruct (g_wfb a) eqn:Ewf; cbn [negb] in Ev; [|rejected Ev]. apply g_wfb_spec in Ewf.
   cbv zeta in Ev. apply ok_or_mismatch in Ev; [|exact Hc]. destruct Ev as [W ->]. ff_split W.
   split; [reflexivity|]. split; [reflexivity|].
@@ -54,13 +56,15 @@ Proof.
   match goal with H : scc_ok _ _ = true |- _ => rename H into Hok end.
   match goal with H : (_ =? (if _ then _ else _)) = true |- _ => apply Z.eqb_eq in H; rename H into Hhas end.
   match goal with H : (_ =? 0) || (_ && _) = true |- _ => rename H into Hcof end.
+  match goal with H : negb (_ =? 0) || (length _ =? 0)%nat = true |- _ => rename H into Hcof0 end.
   match goal with H : (length _ =? length _)%nat = true |- _ => apply Nat.eqb_eq in H; rename H into Hlen end.
   match goal with H : (if Z.testbit _ 1 then _ else _) = true |- _ => rename H into Hedges end.
   repeat match goal with H : (_ =? _) = true |- _ => apply Z.eqb_eq in H end. geq. subst.
   pose proof (proj1 (scc_ok_sound_complete _ _ Ewf) Hok) as Hspec.
   exists a, a0, (map NsZ a2), (if a0 =? 0 then 0 else 1), a4, (map NsZ a5).
   split; [rewrite !nonneg_lists by assumption; lay; subst; rewrite ?app_nil_r; reflexivity|].
-  split; [exact Ewf|]. split; [exact Hspec|]. split; [reflexivity|]. split; [|split].
+  split; [exact Ewf|]. split; [exact Hspec|]. split; [reflexivity|]. split; [|split; [|split]].
+  - intros ->. cbn in Hcof0. apply Nat.eqb_eq in Hcof0. apply length_zero_iff_nil. exact Hcof0.
   - intro Hf. apply Z.eqb_neq in Hf. rewrite Hf in Hcof. cbn in Hcof. apply andb_prop in Hcof. destruct Hcof as [L M].
     apply Nat.eqb_eq in L. split; [exact L|]. intros c v Hv.
     destruct (cm_build (g_n a) (map NsZ a2) 0%N (PositiveMap.empty N)) as [m|] eqn:Em; [|discriminate].
